@@ -20,15 +20,41 @@ fn pp(name: &'static str, shards: usize, cases: u32) -> PartPlan {
 pub fn plan(prop: &str, tier: &str) -> Vec<PartPlan> {
     let t = tier == "thorough";
     let h = |q: u32, th: u32| if t { pp("hist", 16, th / 16) } else { pp("hist", 16, q / 16) };
+    let mut v = plan_base(prop, tier, &h);
+    // coverage-guided supplement (thorough tier of the history-driven properties)
+    if t && props::hist_cfg(prop, true).is_some() && !v.is_empty() {
+        v.push(pp("fuzz", 4, 5000));
+    }
+    v
+}
+
+fn plan_base(prop: &str, tier: &str, h: &dyn Fn(u32, u32) -> PartPlan) -> Vec<PartPlan> {
+    let t = tier == "thorough";
     match prop {
         "C01" => vec![h(16000, 384000)],
         "C02" => vec![if t { pp("deliver", 16, 240000 / 16) } else { pp("deliver", 16, 16000 / 16) }],
-        "C03" => vec![h(16000, 384000)],
-        "C04" => vec![h(16000, 384000)],
+        "C03" | "C04" => {
+            // second configuration: capacity-1 caches, so that the live instance itself reads from packs
+            let mut c1 = if t { pp("hist-cap1", 8, 128000 / 8) } else { pp("hist-cap1", 8, 8000 / 8) };
+            c1.env = vec![("MELDA_ARRAYDESCRIPTORS_CACHE_CAP".to_string(), "1".to_string()), ("MELDA_DATA_CACHE_CAP".to_string(), "1".to_string())];
+            vec![h(16000, 384000), c1]
+        }
         "C05" => vec![h(8000, 128000), if t { pp("trees", 16, 1_000_000 / 16) } else { pp("trees", 16, 40_000 / 16) }, pp("tree-exhaustive", 16, 0)],
         "C06" => vec![h(12000, 256000), pp("merge-exhaustive", 16, 0)],
         "C07" => vec![h(12000, 256000)],
-        "C08" => vec![h(16000, 384000)],
+        "C08" => {
+            // all sizes of the internal worker pool that matter: 1 (client thread + one worker), 2, 16 (quick);
+            // thorough: 1..16 spread over the shards
+            let mut v = vec![];
+            let sizes: Vec<u32> = if t { (1..=16).collect() } else { vec![1, 2, 16] };
+            for n in sizes {
+                let name: &'static str = Box::leak(format!("hist-pool{}", n).into_boxed_str());
+                let mut p = if t { pp(name, 2, 384000 / 32) } else { pp(name, 6, 16000 / 18) };
+                p.env = vec![("RAYON_NUM_THREADS".to_string(), n.to_string())];
+                v.push(p);
+            }
+            v
+        }
         "C09" => vec![if t { pp("faults", 16, 160000 / 16) } else { pp("faults", 16, 12000 / 16) }],
         "C10" => {
             let mut b = if t { pp("damage-b", 8, 40000 / 8) } else { pp("damage-b", 8, 8000 / 8) };
@@ -50,7 +76,12 @@ pub fn plan(prop: &str, tier: &str) -> Vec<PartPlan> {
             v
         }
         "C17" => vec![if t { pp("kv", 16, 16000 / 16) } else { pp("kv", 16, 1600 / 16) }, if t { pp("replica", 16, 4800 / 16) } else { pp("replica", 16, 320 / 16) }],
-        "C18" => vec![if t { pp("configs", 16, 16000 / 16) } else { pp("configs", 16, 1600 / 16) }],
+        "C18" => {
+            // every shrink step costs 8-26 child processes: cap the number of shrink iterations
+            let mut p = if t { pp("configs", 16, 16000 / 16) } else { pp("configs", 16, 1600 / 16) };
+            p.env = vec![("VERIF_MAX_SHRINK".to_string(), "120".to_string())];
+            vec![p]
+        }
         "C19" => vec![h(8000, 128000), if t { pp("revs", 16, 400_000 / 16) } else { pp("revs", 16, 20_000 / 16) }, if t { pp("twins", 16, 64000 / 16) } else { pp("twins", 16, 4000 / 16) }],
         _ => vec![],
     }
@@ -79,6 +110,15 @@ pub fn rule(prop: &str, tier: &str) -> String {
     let mut v: Vec<String> = vec![];
     if let Some(c) = props::hist_cfg(prop, tier == "thorough") {
         v.push(format!("[hist] {}", c.rule));
+        if prop == "C08" {
+            v.push("the history part runs in worker processes with RAYON_NUM_THREADS = 1, 2, 16 (quick) / 1..16 (thorough)".into());
+        }
+        if prop == "C03" || prop == "C04" {
+            v.push("[hist-cap1] the same generator in worker processes with both cache capacities = 1".into());
+        }
+        if tier == "thorough" {
+            v.push("[fuzz] libFuzzer (cargo-fuzz, in-process, coverage-guided) on the same interpreter and oracles: bytes are decoded by a hand-written cursor into a history (harness/src/fuzzdec.rs); 4 jobs x 5000 runs from the seed corpus in fuzz/seeds; evaluations = executed inputs, distinct non-trivial = inputs kept by the fuzzer because they reached new coverage".into());
+        }
     }
     match prop {
         "C02" => v.push("[deliver] a generated multi-replica history builds a block graph; all its item files are delivered one at a time in a generated permutation (optionally packs last, optionally permuted listing) to a fresh replica with refresh after each file (= every prefix of the permutation); graphs with <=4 (quick) / <=5 (thorough) items: every permutation; after each delivery: incremental == full reload, applied set == reference causal closure, state == replica holding only the closure, heads == closure heads; non-trivial = >=4 items with a child block delivered before a parent and a block before its pack".into()),
@@ -103,15 +143,16 @@ fn hist_case(cfg: &props::HistCfg, case: &props::Case) -> CaseRes {
 
 pub fn run_part(prop: &str, part: &str, tier: &str, cases: u32, seed: u64, _shard: u64, _nshards: u64) -> WorkerResult {
     match part {
-        "hist" => {
+        p if p.starts_with("hist") => {
             let cfg = props::hist_cfg(prop, tier == "thorough").expect("no history configuration");
             let strat = props::case_strategy(&cfg);
-            runner::drive("hist", prop, strat, cases, seed, |c| hist_case(&cfg, c))
+            runner::drive(p, prop, strat, cases, seed, |c| hist_case(&cfg, c))
         }
         p if p.starts_with("chains-cap") => {
             let name = part.to_string();
             runner::drive(&name, prop, crate::c16::strategy(tier == "thorough"), cases, seed, |c| crate::c16::run(c))
         }
+        "fuzz" => crate::fuzzrun::run(prop, cases, seed, _shard),
         "trees" => runner::drive("trees", prop, crate::unit::tree_strategy(), cases, seed, crate::unit::run_tree),
         "revs" => runner::drive("revs", prop, crate::unit::rev_strategy(), cases, seed, crate::unit::run_rev),
         "tree-exhaustive" => crate::unit::tree_exhaustive(tier == "thorough", _shard, _nshards),
@@ -143,10 +184,17 @@ pub fn run_part(prop: &str, part: &str, tier: &str, cases: u32, seed: u64, _shar
 
 pub fn replay_part(prop: &str, part: &str, case: &Value) -> Option<(String, String, Vec<String>)> {
     match part {
-        "hist" => {
+        p if p.starts_with("hist") => {
             let cfg = props::hist_cfg(prop, false)?;
             let case: props::Case = serde_json::from_value(case.clone()).ok()?;
-            runner::replay(prop, &case, 20, |c| hist_case(&cfg, c))
+            if p == "hist-cap1" {
+                std::env::set_var("MELDA_ARRAYDESCRIPTORS_CACHE_CAP", "1");
+                std::env::set_var("MELDA_DATA_CACHE_CAP", "1");
+            }
+            let r = runner::replay(prop, &case, 20, |c| hist_case(&cfg, c));
+            std::env::remove_var("MELDA_ARRAYDESCRIPTORS_CACHE_CAP");
+            std::env::remove_var("MELDA_DATA_CACHE_CAP");
+            r
         }
         p if p.starts_with("chains-cap") => {
             let case: Vec<crate::c16::ChainOp> = serde_json::from_value(case.clone()).ok()?;
